@@ -48,6 +48,8 @@ def main() -> int:
             env = dict(os.environ)
             env["PYTHONPATH"] = WT
             env["PYTHONDONTWRITEBYTECODE"] = "1"
+            env["VERIF_EVIDENCE_DIR"] = "/tmp/verif_scratch_evidence"
+            env["VERIF_REPLAY_DIR"] = "/tmp/verif_scratch_replays"
             if runs or m.get("runs"):
                 env["VERIF_RUNS"] = str(runs or m["runs"])
             t0 = time.time()
@@ -64,7 +66,7 @@ def main() -> int:
             sh(["git", "-C", WT, "checkout", "--", "."])
     finally:
         sh(["git", "-C", "/repo", "worktree", "remove", "--force", WT])
-        sh(["rm", "-rf", "/verif/replays"])
+        sh(["rm", "-rf", "/tmp/verif_scratch_replays", "/tmp/verif_scratch_evidence"])
     missed = [r for r in results if not r[1].startswith("CAUGHT")]
     print(f"{len(results) - len(missed)}/{len(results)} caught")
     return 0 if not missed else 1
